@@ -167,7 +167,7 @@ def edit_arb(n, k=None, tag=None, want=None, tier="quick"):
                defs=defs, replace_calls=EDIT_REPLACE,
                flags=["--max-field-sensitivity-array-size", str(max(2 * n, 16) + 1)],
                unwind=max(3, n + 2),   # no loop of the decoders can run longer than the input
-               unwindset=dict([("ref_decode.0", ref_iters), ("ldb_edit_import.0", iters),
+               unwindset=dict([("ref_decode.0", ref_iters), ("ldb_edit_import.0", iters), ("memset.0", 9),
                                ("ldb_edit_clear.0", ncp + 2), ("ldb_edit_clear.1", nnf + 2),
                                ("check_edit.0", ncp + 2), ("check_edit.1", nnf + 2), ("check_edit.2", ndel + 2)] +
                               [("ref_canon_del.%d" % i, ndel + 2) for i in range(5)] +
@@ -189,6 +189,7 @@ OBLIGATIONS.append(edit_arb(4, k=2))
 OBLIGATIONS.append(edit_arb(11, k=1, tag=5, want=5))
 for n in range(5, 9):
     OBLIGATIONS.append(edit_arb(n, k=2, tier="thorough"))
+OBLIGATIONS.append(edit_arb(10, k=1, tag=5, tier="thorough"))
 OBLIGATIONS.append(edit_arb(12, k=1, tag=5, want=5, tier="thorough"))
 OBLIGATIONS.append(edit_arb(22, k=1, tag=7, want=7, tier="thorough"))
 OBLIGATIONS.append(edit_arb(24, k=1, tag=7, want=7, tier="thorough"))
